@@ -39,6 +39,15 @@ const NSS: [Option<&str>; 5] = [None, None, Some("a"), Some("a.b"), Some("c")];
 
 impl<'r> DocGen<'r> {
 	fn fresh(&mut self) -> (Option<String>, String) {
+		// sometimes the simple name of an earlier type in another namespace: fullnames stay unique,
+		// simple names do not
+		if !self.defined.is_empty() && self.rng.gen_bool(0.15) {
+			let (ns0, name0, _) = self.defined.choose(self.rng).unwrap().clone();
+			let ns = NSS.choose(self.rng).unwrap().map(|s| s.to_string());
+			if ns != ns0 && !self.defined.iter().any(|d| d.0 == ns && d.1 == name0) {
+				return (ns, name0);
+			}
+		}
 		let n = self.next;
 		self.next += 1;
 		(NSS.choose(self.rng).unwrap().map(|s| s.to_string()), format!("T{n}"))
@@ -111,7 +120,7 @@ impl<'r> DocGen<'r> {
 			7 => {
 				let (ns, name) = self.fresh();
 				self.defined.push((ns.clone(), name.clone(), false));
-				let k = self.rng.gen_range(1..4);
+				let k = if self.rng.gen_bool(0.1) { 0 } else { self.rng.gen_range(1..4) };
 				ATy::Enum { ns, name, symbols: (0..k).map(|i| format!("S{i}")).collect() }
 			}
 			8 => {
@@ -127,6 +136,105 @@ impl<'r> DocGen<'r> {
 			_ => self.prim(),
 		}
 	}
+}
+
+// ---- forward references: "independent of whether the definition appears before or after its use"
+
+fn tree_size(t: &ATy) -> usize {
+	1 + match t {
+		ATy::Array(i) | ATy::Map(i) => tree_size(i),
+		ATy::Union(vs) => vs.iter().map(tree_size).sum(),
+		ATy::Record { fields, .. } => fields.iter().map(|(_, f)| tree_size(f)).sum(),
+		_ => 0,
+	}
+}
+fn has_ref(t: &ATy) -> bool {
+	match t {
+		ATy::Ref { .. } => true,
+		ATy::Array(i) | ATy::Map(i) => has_ref(i),
+		ATy::Union(vs) => vs.iter().any(has_ref),
+		ATy::Record { fields, .. } => fields.iter().any(|(_, f)| has_ref(f)),
+		_ => false,
+	}
+}
+/// (preorder index, fullname, is a definition that can move, subtree size)
+fn collect_named(t: &ATy, idx: &mut usize, out: &mut Vec<(usize, String, bool, usize)>) {
+	let me = *idx;
+	*idx += 1;
+	match t {
+		ATy::Ref { ns, name } => out.push((me, full(ns, name), false, 1)),
+		ATy::Enum { ns, name, .. } | ATy::Fixed { ns, name, .. } => out.push((me, full(ns, name), true, 1)),
+		ATy::Record { ns, name, fields } => {
+			// a record may move only if nothing in it refers to anything (its meaning then does
+			// not depend on where it stands, and no containment cycle can appear)
+			if !has_ref(t) {
+				out.push((me, full(ns, name), true, tree_size(t)));
+			}
+			for (_, f) in fields {
+				collect_named(f, idx, out);
+			}
+		}
+		ATy::Array(i) | ATy::Map(i) => collect_named(i, idx, out),
+		ATy::Union(vs) => vs.iter().for_each(|v| collect_named(v, idx, out)),
+		ATy::Prim(..) => {}
+	}
+}
+fn subtree_at<'a>(t: &'a ATy, target: usize, idx: &mut usize) -> Option<&'a ATy> {
+	let me = *idx;
+	*idx += 1;
+	if me == target {
+		return Some(t);
+	}
+	match t {
+		ATy::Array(i) | ATy::Map(i) => subtree_at(i, target, idx),
+		ATy::Union(vs) => vs.iter().find_map(|v| subtree_at(v, target, idx)),
+		ATy::Record { fields, .. } => fields.iter().find_map(|(_, f)| subtree_at(f, target, idx)),
+		_ => None,
+	}
+}
+fn rewrite(t: &ATy, idx: &mut usize, d: usize, r: usize, def: &ATy, rf: &ATy) -> ATy {
+	let me = *idx;
+	if me == d {
+		*idx += tree_size(t);
+		return rf.clone();
+	}
+	if me == r {
+		*idx += 1;
+		return def.clone();
+	}
+	*idx += 1;
+	match t {
+		ATy::Array(i) => ATy::Array(Box::new(rewrite(i, idx, d, r, def, rf))),
+		ATy::Map(i) => ATy::Map(Box::new(rewrite(i, idx, d, r, def, rf))),
+		ATy::Union(vs) => ATy::Union(vs.iter().map(|v| rewrite(v, idx, d, r, def, rf)).collect()),
+		ATy::Record { ns, name, fields } => ATy::Record {
+			ns: ns.clone(),
+			name: name.clone(),
+			fields: fields.iter().map(|(n, f)| (n.clone(), rewrite(f, idx, d, r, def, rf))).collect(),
+		},
+		t => t.clone(),
+	}
+}
+/// Move a definition to the place of a later reference to it (and leave a reference where it
+/// stood): the same schema, with the definition after its first use.
+pub fn forward_swap(rng: &mut StdRng, t: &ATy) -> ATy {
+	let mut named = vec![];
+	collect_named(t, &mut 0, &mut named);
+	let mut pairs = vec![];
+	for (d, fd, is_def, size) in &named {
+		if !*is_def {
+			continue;
+		}
+		for (r, fr, is_def2, _) in &named {
+			if !*is_def2 && fr == fd && *r >= *d + *size {
+				pairs.push((*d, *r));
+			}
+		}
+	}
+	let Some(&(d, r)) = pairs.choose(rng) else { return t.clone() };
+	let def = subtree_at(t, d, &mut 0).unwrap().clone();
+	let rf = subtree_at(t, r, &mut 0).unwrap().clone();
+	rewrite(t, &mut 0, d, r, &def, &rf)
 }
 
 /// The Parsing Canonical Form of the specification, computed on the abstract schema
@@ -516,9 +624,44 @@ pub fn generate(stream: &str, seed: u64, n: usize, emit: &mut dyn FnMut(String))
 	for _ in 0..n {
 		let budget = *[2usize, 4, 8, 14].choose(&mut rng).unwrap();
 		let mut g = DocGen { rng: &mut rng, defined: vec![], next: 0, budget };
-		let t = g.gen(0, false, &[]);
+		let mut t = g.gen(0, false, &[]);
+		let mut twins = false;
+		if rng.gen_bool(0.12) {
+			// several types sharing one simple name in different namespaces, each defined and
+			// then referred to: after the swaps below all of them can be pending at once
+			twins = true;
+			let nss = [None, Some("a".to_string()), Some("b".to_string()), Some("a.b".to_string())];
+			let k = rng.gen_range(2..=3);
+			let mut chosen: Vec<Option<String>> = nss.to_vec();
+			chosen.shuffle(&mut rng);
+			chosen.truncate(k);
+			let mut fields = vec![];
+			for (i, ns) in chosen.iter().enumerate() {
+				let def = match rng.gen_range(0..3) {
+					0 => ATy::Fixed { ns: ns.clone(), name: "Id".into(), size: 4 + i, logical: None },
+					1 => ATy::Enum { ns: ns.clone(), name: "Id".into(), symbols: (0..=i).map(|j| format!("S{j}")).collect() },
+					_ => ATy::Record { ns: ns.clone(), name: "Id".into(), fields: vec![(format!("v{i}"), ATy::Prim("int", None))] },
+				};
+				fields.push((format!("d{i}"), def));
+			}
+			for (i, ns) in chosen.iter().enumerate() {
+				fields.push((format!("r{i}"), ATy::Ref { ns: ns.clone(), name: "Id".into() }));
+				if rng.gen_bool(0.5) {
+					fields.push((format!("q{i}"), ATy::Array(Box::new(ATy::Ref { ns: ns.clone(), name: "Id".into() }))));
+				}
+			}
+			t = ATy::Record { ns: NSS.choose(&mut rng).unwrap().map(|s| s.to_string()), name: "Twins".into(), fields };
+		}
 		let mut expected = String::new();
 		expected_pcf(&t, &mut vec![], &mut expected);
+		// the canonical form writes a named type in full where it is first *met*, so a document
+		// that defines it later has the canonical form of the one that defines it first
+		let mut t = t;
+		for _ in 0..(if twins { 4 } else { 2 }) {
+			if twins || rng.gen_bool(0.35) {
+				t = forward_swap(&mut rng, &t);
+			}
+		}
 		let v = spell(&mut rng, &t, &None);
 		let mut text = String::new();
 		render_any(&v, &mut rng, &mut text);
@@ -739,6 +882,17 @@ pub fn generate_graph(stream: &str, seed: u64, n: usize, emit: &mut dyn FnMut(St
 							Reg::Array(k) | Reg::Map(k) => *k = len + rng.gen_range(0..3),
 							_ => {}
 						}
+					}
+				}
+				1 if rng.gen_bool(0.4) && matches!(raw[0].reg, Reg::Record(..)) => {
+					// a cycle through unnamed types only, one of which also refers back to a
+					// named type that is already written when the cycle is entered
+					let a = raw.len();
+					let u = a + 1;
+					raw.push(RawNode { reg: Reg::Array(u), logical: None });
+					raw.push(RawNode { reg: Reg::Union(vec![0, a]), logical: None });
+					if let Reg::Record(_, fs) = &mut raw[0].reg {
+						fs.push((format!("cyc{}", fs.len()), a));
 					}
 				}
 				1 => {
